@@ -12,13 +12,13 @@ RULE = ("Hypothesis draws variable lists (any mix and order of the seven variabl
         "others) and positions (members, out-of-range and fractional vectors of matching dimension). Oracle: "
         "dimension = sum of sizes; get_bounds has one (lo,hi) per coordinate equal to the declaration, lo<=hi; "
         "empty/initial/corrected solutions have one coordinate per dimension and are members; correct_solution is "
-        "coordinate-wise the owner's rule (checked against a stand-alone variable built from the declaration and "
-        "against a reference clip); transform_solution has exactly the declared names as keys, in order, each "
+        "coordinate-wise the owner's rule (checked against a stand-alone variable built from the same declaration); transform_solution has exactly the declared names as keys, in order, each "
         "holding the reference decoding of its slice. Non-trivial = >= 2 variables of different types, or a "
         "multi-variable of size 1, or a DiscreteMultiVariable; distinct = SHA-256 of the case.")
 ASSUMPTIONS = ["get_bounds law is not applied to 'permutation + other variables' (ragged bounds; not a documented "
                "combination); all other laws are", "transform_solution is applied to members only (its documented use)",
-               "reference clip/decoding in checks/c14.py is the trusted statement of the per-variable rules"]
+               "per-variable rules themselves (clip, truncation, label order) are C13's business; C14 checks that the task "
+               "applies the owning variable's rule to the right coordinate / slice"]
 BUDGET = {"quick": 600, "thorough": 10000}
 
 
@@ -82,17 +82,7 @@ def case(draw):
 
 
 # ---------------------------------------------------------------------------------------------------------
-def ref_correct(spec, v):
-    """reference of the per-coordinate correction rule (clip / clip-then-truncate / keep a permutation)"""
-    k = spec[0]
-    if k == "c":
-        return float(min(max(float(v), spec[1]), spec[2]))
-    if k == "d":
-        return int(min(max(float(v), 0.0), float(spec[1] - 1)))
-    return None
-
-
-def ref_decode(v, sl):
+def ref_decode(v, sl, standalone=None):
     t = v["type"]
     if t == "ContinuousVariable":
         return sl[0]
@@ -104,7 +94,9 @@ def ref_decode(v, sl):
         return [ch[i] for ch, i in zip(v["choices"], sl)]
     if t == "BinaryVariable":
         return [int(i) for i in sl]
-    order = oracles._sorted_items(v["items"])
+    # the label order is the variable's own business (C13 checks it is a rearrangement of the items):
+    # the task must agree with the stand-alone variable's decoding of the identity
+    order = standalone.decode(list(range(len(v["items"]))))
     return [order[i] for i in sl[0]]
 
 
@@ -191,10 +183,9 @@ def laws(payload):
             continue
         for j, (cj, xj, sp, own) in enumerate(zip(c, x, coords, flat_standalone)):
             exp_lib = own.correct(xj)
-            exp_ref = ref_correct(sp, xj)
-            if not c13._eq(cj, exp_lib) or (exp_ref is not None and not c13._eq(cj, exp_ref)):
+            if not c13._eq(cj, exp_lib):
                 out.append((key("correct-not-coordinatewise"),
-                            f"coordinate {j}: got {cj!r}, owner rule {exp_lib!r}, reference {exp_ref!r}"[:300]))
+                            f"coordinate {j}: got {cj!r}, owner rule gives {exp_lib!r}"[:300]))
                 break
         try:
             d = task.transform_solution(c)
@@ -205,8 +196,8 @@ def laws(payload):
             out.append((key("transform-keys"), f"keys {list(d.keys())!r} for names {[v['name'] for v in vs]!r}"))
             continue
         off = 0
-        for v, sz in zip(vs, sizes):
-            exp = ref_decode(v, c[off:off + sz])
+        for v, sz, sa in zip(vs, sizes, standalone):
+            exp = ref_decode(v, c[off:off + sz], sa)
             if not _same(d[v["name"]], exp):
                 out.append((key("transform-value"), f"{v['name']}: got {d[v['name']]!r}, expected {exp!r}"[:300]))
                 break
